@@ -18,11 +18,25 @@ package db
 //@   ensures[error-means-nothing] result1 != nil ==> result0 == nil
 //@   ensures[row-is-the-header] result1 == nil ==> result0 != nil && fresh(result0) && c.Header != nil && result0.Height == c.Header.Height && result0.CertificateID == c.Header.CertificateID && result0.RetryCount == c.Header.RetryCount && result0.PreviousLocalExitRoot == c.Header.PreviousLocalExitRoot && result0.NewLocalExitRoot == c.Header.NewLocalExitRoot && result0.FromBlock == c.Header.FromBlock && result0.ToBlock == c.Header.ToBlock && result0.Status == c.Header.Status && result0.CreatedAt == c.Header.CreatedAt && result0.FinalizedL1InfoTreeRoot == c.Header.FinalizedL1InfoTreeRoot && result0.L1InfoTreeLeafCount == c.Header.L1InfoTreeLeafCount && result0.CertType == c.Header.CertType && result0.AggchainProof == c.AggchainProof && result0.SignedCertificate == c.SignedCertificate
 
+// looking up the row of a height (decides whether SaveLastSentCertificate replaces or inserts): proved wrapper - read
+// through the querier given (the caller's transaction), the row read is the row returned, "absent" is answered exactly
+// when the statement found no row, any other failure is an error. (Statement meaning assumed at the library call, A5.)
+//@ ghost var certLookupNoRows bool
+//@ extern github.com/russross/meddler.QueryRow@db.getCertificateByHeight (conn, dst, query, args)
+//@   requires typeIs(dst, *certificateInfo) && cast(dst, *certificateInfo) != nil
+//@   modifies *cast(dst, *certificateInfo), certLookupNoRows
+//@   ensures result != errvar("db.ErrNotFound") && ((result != nil && !isErr(result, sql.ErrNoRows)) ==> !isErr(result, errvar("db.ErrNotFound")))
+//@   ensures certLookupNoRows == (result != nil && isErr(result, sql.ErrNoRows))
+//@   ensures result == nil ==> cast(dst, *certificateInfo).Height == caller.height
 //@ func getCertificateByHeight
-//@   trusted
+//@   props C13 C02
 //@   sqltext "SELECT * FROM certificate_info WHERE height = $1;"
-//@   modifies nothing
-//@   ensures result1 != nil ==> result0 == nil
+//@   requires db != nil
+//@   modifies certLookupNoRows
+//@   ensures[error-means-nothing] result1 != nil ==> result0 == nil
+//@   ensures[the-row-of-that-height] (result1 == nil && result0 != nil) ==> result0.Height == height && fresh(result0)
+//@   ensures[absent-exactly-when-no-row] (result0 == nil && (result1 == nil || isErr(result1, errvar("db.ErrNotFound")))) == certLookupNoRows
+//@   assert call:QueryRow arg0 == db
 
 // a statement issued through a querier: counted as outside the transaction unless the querier is the open transaction
 // (assumed at the interface, A5: an Exec that returns an error changed nothing)
